@@ -385,6 +385,7 @@ type FuncContract struct {
 	Trusted      bool
 	Panics       *Clause // condition under which a panic is the specified outcome
 	Inline       bool    // force inlining at call sites even though a contract exists
+	Pure         *Clause // frame condition: writes nothing
 	FreshResult  bool    // reference results are freshly allocated, non-nil objects
 	Interference []*Interference
 	Pkg          string // package path the contract was declared in ("" for stubs)
@@ -458,7 +459,7 @@ var clauseKeywords = map[string]bool{
 	"requires": true, "ensures": true, "modifies": true, "trusted": true, "panics": true, "loop": true,
 	"invariant": true, "progress": true, "at": true, "func": true, "pred": true, "fn": true, "ufn": true, "sort": true,
 	"ghost": true, "axiom": true, "layout": true, "callers": true, "pin": true, "typeshape": true, "loopexits": true,
-	"lemma": true, "inline": true, "nocall": true, "guarded": true, "package": true, "freshresult": true, "opaque": true, "interference": true,
+	"lemma": true, "inline": true, "pure": true, "nocall": true, "guarded": true, "package": true, "freshresult": true, "opaque": true, "interference": true,
 }
 
 var tagRe = regexp.MustCompile(`^C\d\d(,C\d\d)*$`)
@@ -693,6 +694,14 @@ func (ss *SpecSet) ParseSpecFile(path string, goComments bool, pkgPath string) e
 				return fmt.Errorf("%s:%d: inline outside func", path, it.line)
 			}
 			cur.Inline = true
+		case "pure":
+			// pure [tags label]: the function (with everything it calls) writes no heap location that existed
+			// before the call and no ghost: it has no state shared between calls
+			if cur == nil {
+				return fmt.Errorf("%s:%d: pure outside func", path, it.line)
+			}
+			tags, label, _ := parseLabel(it.text)
+			cur.Pure = &Clause{Kind: "pure", Tags: tags, Label: label, Src: "pure", File: path, Line: it.line}
 		case "loop":
 			if cur == nil {
 				return fmt.Errorf("%s:%d: loop outside func", path, it.line)
